@@ -211,7 +211,7 @@ func TestC05(t *testing.T) {
 	theT = t
 	vkit.Run(t, vkit.Spec[colCase]{
 		ID: "C05",
-		Rule: "generated schedules (spans incl. late ones, aimed advances, ejections; six sampler kinds; 1-5 workers) with DryRun on, real collector in a synctest bubble. Oracle: every accepted uid forwarded exactly once with SampleRate = max(client,1) and meta.refinery.dryrun.kept present, identical across the trace, equal to the decision recorded in the decision cache and to the sampler's decision where that is timing-independent (keep-all, drop-all, deterministic via an independent sampler instance, field rules when no span or every span carries the field). Non-trivial: a trace whose decision is drop, or a late span.",
+		Rule: "generated schedules (spans incl. late ones, aimed advances, ejections; six sampler kinds; 1-5 workers) with DryRun on from the start or toggled by reloads, real collector in a synctest bubble. Oracle (per span, by the DryRun setting in force when it was handled): every span accepted while dry run stays on is forwarded exactly once with SampleRate = max(client,1) and meta.refinery.dryrun.kept present, identical across the trace, equal to the decision recorded in the decision cache and to the sampler's decision where that is timing-independent (keep-all, drop-all, deterministic via an independent sampler instance, field rules when no span or every span carries the field). Non-trivial: a trace whose decision is drop, or a late span.",
 		Assumptions: []string{"no stress relief in these runs (stress relief is documented to ignore dry run)"},
 		Gen:  genC05Case,
 		Exec: execC05,
